@@ -488,6 +488,62 @@ def main() -> int:
     except Exception as e:  # noqa
         problems.append(f"vmtar: {e}")
 
+    # ---------------- Hyper-V VMCX/VMRS (C17)
+    try:
+        from dissect.hypervisor.descriptor import c_hyperv as m_hvc
+        from dissect.hypervisor.descriptor import hyperv as m_hvpy
+        ch = m_hvc.c_hyperv
+        w.ns("hyperv")
+        w.struct("HyperVStorageHeader", ch.HyperVStorageHeader,
+                 ["signature", "sequence_number", "version", "alignment", "replay_log_offset"])
+        w.struct("HyperVStorageReplayLog", ch.HyperVStorageReplayLog, ["signature", "num_entries"])
+        w.nat("HyperVStorageReplayLogEntry.size", len(ch.HyperVStorageReplayLogEntry))
+        w.struct("HyperVStorageObjectTable", ch.HyperVStorageObjectTable, ["signature", "num_entries"])
+        w.struct("HyperVStorageObjectTableEntry", ch.HyperVStorageObjectTableEntry, ["type", "offset", "size", "allocated"])
+        w.struct("HyperVStorageKeyTable", ch.HyperVStorageKeyTable, ["signature", "index", "sequence_number"])
+        w.struct("HyperVStorageKeyTableEntryHeader", ch.HyperVStorageKeyTableEntryHeader,
+                 ["type", "size", "parent_table_idx", "parent_offset", "data_offset"])
+        for cname in ("SIGNATURE_STORAGE_HEADER", "FIRST_HEADER_OFFSET", "SECOND_HEADER_OFFSET", "SIGNATURE_REPLAY_LOG_HEADER",
+                      "SIGNATURE_OBJECT_TABLE_HEADER", "OBJECT_TABLE_OFFSET", "SIGNATURE_KEY_TABLE_HEADER"):
+            w.nat(cname, getattr(ch, cname))
+        w.strlist("ObjectEntryType_names", list(ch.ObjectEntryType.__members__.keys()))
+        w.natlist("ObjectEntryType_values", [int(m) for m in ch.ObjectEntryType.__members__.values()])
+        w.strlist("KeyDataType_names", list(ch.KeyDataType.__members__.keys()))
+        w.natlist("KeyDataType_values", [int(m) for m in ch.KeyDataType.__members__.values()])
+        w.nat("FLAG_FileObjectPointer", int(ch.KeyDataFlag.FileObjectPointer))
+
+        def _fn(qual):
+            """literals of a method or property getter, in source order"""
+            import textwrap
+            obj = m_hvpy
+            for part in qual.split("."):
+                obj = getattr(obj, part)
+            obj = getattr(obj, "fget", obj)
+            out = []
+            for node in ast.walk(ast.parse(textwrap.dedent(inspect.getsource(obj)))):
+                if isinstance(node, ast.Constant) and isinstance(node.value, (int, str)) and not isinstance(node.value, bool):
+                    out.append((node.lineno, node.col_offset, node.value))
+            out.sort(key=lambda t: (t[0], t[1]))
+            return [v for _, _, v in out]      # (docstrings are dropped by the int / format filters below)
+
+        def _fmts(vals):
+            return [v for v in vals if isinstance(v, str) and (v[:1] in "<>=!@" and len(v) <= 6 or v in ("utf-8", "utf-16-le"))]
+        E = "HyperVStorageKeyTableEntry."
+        w.natlist("init_ints", [v for v in _fn("HyperVFile.__init__") if isinstance(v, int)])
+        w.natlist("flags_ints", [v for v in _fn(E + "flags") if isinstance(v, int)])
+        w.natlist("type_ints", [v for v in _fn(E + "type") if isinstance(v, int)])
+        w.natlist("parent_ints", [v for v in _fn(E + "parent") if isinstance(v, int)])
+        w.natlist("pointer_ints", [v for v in _fn(E + "file_object_pointer") if isinstance(v, int)])
+        w.strlist("pointer_formats", _fmts(_fn(E + "file_object_pointer")))
+        w.natlist("key_ints", [v for v in _fn(E + "key") if isinstance(v, int)])
+        w.strlist("key_formats", _fmts(_fn(E + "key")))
+        w.natlist("value_ints", [v for v in _fn(E + "value") if isinstance(v, int)])
+        w.strlist("value_formats", _fmts(_fn(E + "value")))
+        w.natlist("keytable_init_ints", [v for v in _fn("HyperVStorageKeyTable.__init__") if isinstance(v, int)])
+        w.end("hyperv")
+    except Exception as e:  # noqa
+        problems.append(f"hyperv: {e}")
+
     extra = HERE / "extract_more.py"
     if extra.exists():
         ns = {}
